@@ -1,8 +1,10 @@
 (* C11/Properties.v — the property theorems only.  Each is closed by [exact] of a lemma from Proofs.v (or by
    [vm_compute] on a concrete witness for the _refuted / _nonvacuous statements) and followed by Print Assumptions.
 
-   [repaired] is the behaviour for which the property holds; [defective] is what /repo does today
-   (see notes/C11.md and KNOWN_FINDINGS.txt). *)
+   Flag sets (Model.flags): [repaired] = behaviour for which the full property holds; [head] = /repo HEAD since 43d3a11
+   (the receiver never compares sequence numbers; bulk sync always replays the backlog window); [defective] = /repo
+   before the C11 fixes bb5ec1b, 88d6de6, 43d3a11.  Theorems named *_today_* were written against [defective]; each
+   comment says which flag it needs and whether /repo HEAD still has it (see notes/C11.md, KNOWN_FINDINGS.txt). *)
 From OV Require Import Common.Base C11.Model C11.Proofs.
 
 (* ------------------------------------------------------------------ backlog *)
@@ -19,7 +21,17 @@ Theorem C11_backlog_range :
 Proof. exact backlog_range_repaired. Qed.
 Print Assumptions C11_backlog_range.
 
-(* The Range of today's code is exact as long as every sequence number and bound is below 2^63. *)
+(* NewSyncBacklog(capacity <= 0) uses the default capacity 10000 *)
+Theorem C11_backlog_range_default_capacity :
+  forall cap qs first from to,
+  (cap <= 0)%Z -> consec first qs -> (0 <= first)%Z -> (first + Z.of_nat (length qs) <= two64)%Z ->
+  (0 <= from < two64)%Z -> (0 <= to < two64)%Z ->
+  range repaired (fold_left push qs (new_ring cap)) from to =
+  Ok (map Some (filter (in_range from to) (skipn (length qs - Z.to_nat 10000) qs))).
+Proof. exact backlog_range_default. Qed.
+Print Assumptions C11_backlog_range_default_capacity.
+
+(* The Range of /repo before bb5ec1b (flag f_range; fixed) is exact as long as every sequence number and bound is below 2^63. *)
 Theorem C11_backlog_range_today :
   forall cap qs first from to,
   (0 < cap <= max_make)%Z -> consec first qs -> (1 <= first)%Z -> (first + Z.of_nat (length qs) <= two63)%Z ->
@@ -29,7 +41,7 @@ Theorem C11_backlog_range_today :
 Proof. exact backlog_range_today. Qed.
 Print Assumptions C11_backlog_range_today.
 
-(* ... and wrong above: an entry outside the requested range is returned (capacity 4) *)
+(* ... and wrong above (before bb5ec1b): an entry outside the requested range is returned (capacity 4) *)
 Definition ex_sess (sid : N) (v4 : option N) (pool : N) : session :=
   mksession KIPoE sid 1 2199023255553 100 7 1 v4 pool None 0 None 0 0 None None 0 3600.
 Definition ex_q (seq : N) (rel : bool) (s : session) : req := mkreq 1 seq (act_of rel) (s2c s).
@@ -119,14 +131,15 @@ Definition ex_reg : registry :=
 Definition ex_a : N := 167772165.
 Definition ex_b : N := 167772166.
 
-(* today: create, release, then the create delivered once more — the session is back on the standby *)
+(* /repo HEAD (flag f_stale, known finding stale-redelivery-applied): create, release, then the create delivered once
+   more — the session is back on the standby *)
 Theorem C11_converges_today_refuted :
   exists g0 cap g evs d,
   g <> 0%N /\ (forall e, In e evs -> s_srg (fst e) = g) /\
   delivery (snd (sender_run [(g, (0%N, new_ring cap))] evs)) 0 d (length (snd (sender_run [(g, (0%N, new_ring cap))] evs))) /\
   live_run evs = [] /\
-  rc_store (recv_run defective (mkrecv [] [] g0) d) <> expected_store (live_run evs) /\
-  leases_of (rc_reg (recv_run defective (mkrecv [] [] g0) d)) <> [].
+  rc_store (recv_run head (mkrecv [] [] g0) d) <> expected_store (live_run evs) /\
+  leases_of (rc_reg (recv_run head (mkrecv [] [] g0) d)) <> [].
 Proof.
   exists ex_reg, 8%Z, 1%N, [(ex_sess 1 (Some ex_a) 1, false); (ex_sess 1 (Some ex_a) 1, true)],
          [ex_q 1 false (ex_sess 1 (Some ex_a) 1); ex_q 2 true (ex_sess 1 (Some ex_a) 1); ex_q 1 false (ex_sess 1 (Some ex_a) 1)].
@@ -180,7 +193,7 @@ Ltac ex_uniq :=
   do 6 (try (destruct i as [|i]; [vm_compute; repeat constructor; simpl; intuition discriminate|try lia])).
 Ltac ex_inorder := repeat (eapply dl_next; [reflexivity|]); apply dl_nil.
 
-(* today: an update that changes the address leaves the old one reserved on the standby *)
+(* before 88d6de6 (flag f_drop; fixed in /repo): an update that changes the address leaves the old one reserved *)
 Theorem C11_pools_exact_today_refuted :
   exists g0 cap g evs d x sid,
   g <> 0%N /\ (forall e, In e evs -> s_srg (fst e) = g) /\ fresh g0 /\
@@ -197,7 +210,8 @@ Proof.
 Qed.
 Print Assumptions C11_pools_exact_today_refuted.
 
-(* today: releasing a session frees the same address held by a live session in another (VRF) pool *)
+(* before 88d6de6 (flag f_relall; fixed in /repo): releasing a session frees the same address held by a live session
+   in another (VRF) pool *)
 Theorem C11_release_ignores_pool_today_refuted :
   exists g0 cap g evs d x sid,
   g <> 0%N /\ (forall e, In e evs -> s_srg (fst e) = g) /\ fresh g0 /\
@@ -215,7 +229,8 @@ Proof.
 Qed.
 Print Assumptions C11_release_ignores_pool_today_refuted.
 
-(* today: a bulk replay of the backlog after everything was delivered brings a released session back *)
+(* before 43d3a11 (flag f_bulk; fixed in /repo): a bulk replay after everything was delivered brings a released
+   session back *)
 Theorem C11_bulk_replay_today_refuted :
   exists ops,
   let y := sys_run defective (sys_init 8 [1%N] ex_reg) ops in
@@ -250,14 +265,14 @@ Proof.
 Qed.
 Print Assumptions C11_pools_exact_nonvacuous.
 
-(* ------------------------------------------------------------------ what today's receiver does guarantee *)
-(* PARTIAL (the full statement C11_converges is refuted for today's code, see C11_converges_today_refuted):
-   with the receiver as it is today, the replicated STORE still converges for every history when each
+(* ------------------------------------------------------------------ replays of ranges on a receiver without sequence comparison *)
+(* PARTIAL (for /repo HEAD and every flag set with f_stale; the full statement C11_converges is refuted for them, see
+   C11_converges_today_refuted): the replicated STORE still converges for every history when each
    retransmission starts at or before the first undelivered message and runs on without a gap at least to the
    newest message delivered so far (single in-order deliveries, a duplicate of the newest message and replays of
    the backlog up to its end are such runs).  Missing with respect to the full property: arbitrary redelivery of
-   older messages (refuted), and the pool reservations (refuted: C11_pools_exact_today_refuted,
-   C11_release_ignores_pool_today_refuted). *)
+   older messages (refuted), and the pool reservations under range replays (not proved; proved for duplicates of a
+   session's newest message: C11_pools_exact_head). *)
 Theorem C11_converges_today_partial :
   forall g0 cap g fl evs d,
   f_stale fl = true ->
